@@ -681,7 +681,7 @@ theorem mergePrev_winv {a : CBA} {pre post : List Block} {c : Block}
       have hn := (noAdj_around_free (pre := pre0) (post := []) hp').mp hpre
       refine ⟨a', pre0, _, e, hw, hf, rfl, hn.1, hn.2.2.1, ?_⟩
       intro u hu
-      simp only [List.mem_append, List.mem_cons, List.mem_singleton, List.not_mem_nil, or_false]
+      simp only [List.mem_append, List.mem_cons, List.not_mem_nil, or_false]
       constructor
       · rintro (h1 | rfl | h1)
         · exact Or.inl (Or.inl h1)
@@ -731,6 +731,361 @@ theorem mergeNext_winv {a : CBA} {pre post : List Block} {c : Block}
         · rw [hc] at hu; simp at hu
         · rw [hq'] at hu; simp at hu
         · exact Or.inr (Or.inr h1)
+
+
+/-! ### `free` and `alloc` preserve the invariant -/
+
+/-- `free(x)` when no used block starts at `x` (never allocated, interior address, already
+    freed): nothing changes -/
+theorem free_noop {a : CBA} {bs : List Block} (h : WInv a bs) {x : Nat}
+    (hx : a.off ≤ x ∧ x < a.off + a.size) (hno : ∀ u ∈ bs, u.used = true → u.start ≠ x) :
+    a.free (some x) = .ok a := by
+  simp only [CBA.free]
+  rcases cell_classify h hx with ⟨pre, b, post, rfl, hb, hc⟩ | hc
+  · rw [hc]
+    simp only [bind, Except.bind]
+    have : b.used = false := by
+      cases hu : b.used with
+      | false => rfl
+      | true => exact absurd hb (hno b (by simp) hu)
+    simp [this, pure, Except.pure]
+  · rw [hc]; rfl
+
+theorem free_inv {a : CBA} {bs : List Block} (h : Inv a bs) {x : Nat}
+    (hx : a.off ≤ x ∧ x < a.off + a.size) :
+    ∃ a' bs', a.free (some x) = .ok a' ∧ Inv a' bs' ∧ SameFrame a' a ∧
+      (∀ u, u.used = true → (u ∈ bs' ↔ u ∈ bs ∧ u.start ≠ x)) := by
+  by_cases hno : ∀ u ∈ bs, u.used = true → u.start ≠ x
+  · exact ⟨a, bs, free_noop h.toWInv hx hno, h, SameFrame.refl a,
+      fun u hu => ⟨fun hm => ⟨hm, hno u hm hu⟩, fun hm => hm.1⟩⟩
+  · have hno' : ∃ b, b ∈ bs ∧ b.used = true ∧ b.start = x := by
+      apply Classical.byContradiction
+      intro hcon
+      exact hno fun u hu huu e => hcon ⟨u, hu, huu, e⟩
+    obtain ⟨b, hb, hbu, hbx⟩ := hno'
+    obtain ⟨pre, post, rfl⟩ := List.append_of_mem hb
+    have hw := h.toWInv
+    have hna := (noAdj_around_used hbu).mp h.noAdj
+    obtain ⟨a1, e1, hw1, hf1⟩ := markFree_winv hw hbu
+    obtain ⟨a2, pre2, c2, e2, hw2, hf2, hc2, hn2, hl2, hu2⟩ :=
+      mergePrev_winv (c := { b with used := false }) hw1 rfl hna.1
+    obtain ⟨a3, c3, post3, e3, hw3, hf3, hc3, hn3, hh3, hu3⟩ := mergeNext_winv hw2 hc2 hna.2
+    refine ⟨a3, pre2 ++ c3 :: post3, ?_, ⟨hw3, ?_⟩, hf3.trans (hf2.trans hf1), ?_⟩
+    · simp only [CBA.free]
+      have hcell : a.cell x = .ok (some b) := by rw [← hbx]; exact hw.arrAt.cell
+      rw [hcell]
+      simp only [bind, Except.bind, hbu, Bool.not_true, Bool.false_eq_true, if_false]
+      rw [← hbx, e1]
+      simp only []
+      have e2' : a1.mergePrev b.start { b with used := false } = .ok (a2, c2) := e2
+      rw [e2']
+      exact e3
+    · exact (noAdj_around_free hc3).mpr ⟨hn2, hn3, hl2, hh3⟩
+    · intro u hu
+      rw [hu3 u hu, hu2 u hu]
+      simp only [List.mem_append, List.mem_cons]
+      have hinj : ∀ v, v ∈ pre ++ b :: post → v.start = b.start → v = b :=
+        fun v hv e => tiles_start_inj hw.tiles hv (by simp) e
+      constructor
+      · rintro (h1 | rfl | h1)
+        · refine ⟨Or.inl h1, fun e => ?_⟩
+          have := hinj u (by simp [h1]) (e.trans hbx.symm)
+          subst this
+          have hp := (tiles_split hw.tiles).1
+          have := tiles_mem hp h1; omega
+        · simp at hu
+        · refine ⟨Or.inr (Or.inr h1), fun e => ?_⟩
+          have := hinj u (by simp [h1]) (e.trans hbx.symm)
+          subst this
+          have hp := (tiles_split hw.tiles)
+          have := tiles_mem hp.2.2 h1; omega
+      · rintro ⟨h1 | rfl | h1, hne⟩
+        · exact Or.inl h1
+        · exact absurd hbx hne
+        · exact Or.inr (Or.inr h1)
+
+/-! ### `alloc` -/
+
+theorem pickBlock_spec {a : CBA} {bs : List Block} (h : WInv a bs) {p : Nat × List Nat}
+    (hp : p ∈ a.freed) (hne : p.2 ≠ []) (k : Nat) :
+    ∃ st, pickBlock p k = .ok (some ⟨st, p.1, false⟩) ∧ (⟨st, p.1, false⟩ : Block) ∈ bs := by
+  obtain ⟨st, e, hm⟩ := pick_mem k hne
+  refine ⟨st, by simp [pickBlock, e], ?_⟩
+  exact h.freedSound p.1 st ⟨p.2, by cases p; exact hp, hm⟩
+
+theorem findAvailable_spec {a : CBA} {bs : List Block} (h : WInv a bs) (n k : Nat) :
+    (∃ b, a.findAvailable n k = .ok (some b) ∧ b ∈ bs ∧ b.used = false ∧ n ≤ b.size) ∨
+    (a.findAvailable n k = .ok none ∧ ∀ b ∈ bs, b.used = false → b.size < n) := by
+  unfold CBA.findAvailable
+  cases h1 : a.freed.find? (fun p => p.1 == n && !p.2.isEmpty) with
+  | some p =>
+    have hp := List.find?_some h1
+    have hm := List.mem_of_find?_eq_some h1
+    simp only [Bool.and_eq_true, beq_iff_eq, Bool.not_eq_eq_eq_not, Bool.not_true,
+      List.isEmpty_eq_false_iff] at hp
+    obtain ⟨st, e, hb⟩ := pickBlock_spec h hm hp.2 k
+    exact Or.inl ⟨_, e, hb, rfl, by simp [hp.1]⟩
+  | none =>
+    simp only []
+    cases h2 : a.freed.find? (fun p => decide (n ≤ p.1) && !p.2.isEmpty) with
+    | some p =>
+      have hp := List.find?_some h2
+      have hm := List.mem_of_find?_eq_some h2
+      simp only [Bool.and_eq_true, decide_eq_true_eq, Bool.not_eq_eq_eq_not, Bool.not_true,
+        List.isEmpty_eq_false_iff] at hp
+      obtain ⟨st, e, hb⟩ := pickBlock_spec h hm hp.2 k
+      exact Or.inl ⟨_, e, hb, rfl, hp.1⟩
+    | none =>
+      simp only []
+      rw [List.find?_eq_none] at h2
+      -- every free block below top is too small
+      have hsmall : ∀ b ∈ bs, b.used = false → b.start < a.top → b.size < n := by
+        intro b hb hf hlt
+        obtain ⟨l0, hl0, hst⟩ := h.freedComplete b hb hf hlt
+        have := h2 _ hl0
+        simp only [Bool.and_eq_true, decide_eq_true_eq, Bool.not_eq_eq_eq_not, Bool.not_true,
+          List.isEmpty_eq_false_iff, not_and] at this
+        have hne : l0 ≠ [] := List.ne_nil_of_mem hst
+        apply Classical.byContradiction
+        intro hcon
+        exact this (by omega) hne
+      obtain ⟨l, hl, hlt⟩ := h.top
+      obtain ⟨pre, rfl⟩ := List.getLast?_eq_some_iff.mp hl
+      have ha := h.arrAt (pre := pre) (b := l) (post := [])
+      have hs := tiles_split h.tiles
+      simp only [Tiles] at hs
+      have hlo := ha.preLen.2.1
+      have hbelow : ∀ b ∈ pre, b.start < a.top := fun b hb => by
+        have := tiles_mem hs.1 hb; omega
+      have hcell : a.cell a.top = .ok (some l) := by rw [← hlt]; exact ha.cell
+      by_cases hfit : a.top + n - a.off > a.size
+      · rw [if_pos hfit]
+        refine Or.inr ⟨rfl, ?_⟩
+        intro b hb hf
+        rcases List.mem_append.mp hb with hb' | hb'
+        · exact hsmall b hb hf (hbelow b hb')
+        · simp at hb'; subst hb'; omega
+      · rw [if_neg hfit]
+        simp only [hcell, bind, Except.bind]
+        cases hu : l.used with
+        | true =>
+          simp only [if_true]
+          refine Or.inr ⟨rfl, ?_⟩
+          intro b hb hf
+          rcases List.mem_append.mp hb with hb' | hb'
+          · exact hsmall b hb hf (hbelow b hb')
+          · simp at hb'; subst hb'; rw [hu] at hf; simp at hf
+        | false =>
+          simp only [Bool.false_eq_true, if_false]
+          exact Or.inl ⟨l, rfl, by simp, hu, by omega⟩
+
+theorem split_exact_inv {a : CBA} {pre post : List Block} {b : Block}
+    (h : Inv a (pre ++ b :: post)) (hb : b.used = false) :
+    ∃ a', a.split b b.size true = .ok (a', ⟨b.start, b.size, true⟩, none) ∧
+      Inv a' (pre ++ ⟨b.start, b.size, true⟩ :: post) ∧ SameFrame a' a := by
+  have hw := h.toWInv
+  have ha := hw.arrAt
+  have e1 := ha.set ⟨b.start, b.size, true⟩ rfl
+  have hs := tiles_split hw.tiles
+  have hna := (noAdj_around_free hb).mp h.noAdj
+  have hsp : b.split b.size = (some b, none) := by simp [Block.split]
+  unfold CBA.split
+  rw [hsp]
+  simp only [CBA.setCell, e1, bind, Except.bind, pure, Except.pure, if_true]
+  refine ⟨_, rfl, ?_, rfl, rfl, rfl⟩
+  have hmemOld : ∀ c, c ∈ pre ++ b :: post ↔ c ∈ pre ∨ c = b ∨ c ∈ post := by intro c; simp
+  have hmemNew : ∀ c t, c ∈ pre ++ t :: post ↔ c ∈ pre ∨ c = t ∨ c ∈ post := by intro c t; simp
+  have hbeq : b = ⟨b.start, b.size, false⟩ := by cases b; simp_all
+  refine ⟨⟨hw.offLe, rfl, tiles_join hs.1 hs.2.1 hs.2.2, ?_, ?_, ?_⟩, ?_⟩
+  · obtain ⟨l, hl, hlt⟩ := hw.top
+    rw [getLast?_append_cons] at hl ⊢
+    cases post with
+    | nil => simp at hl ⊢; rw [← hlt, ← hl]
+    | cons q post' => simp only [List.getLast?_cons_cons] at hl ⊢; exact ⟨l, hl, hlt⟩
+  · intro sz st hin
+    rw [hmemNew]
+    obtain ⟨h1, h2⟩ := (inFreed_remove _ _ _ _).mp hin
+    rcases (hmemOld _).mp (hw.freedSound sz st h1) with hp | e | hp
+    · exact Or.inl hp
+    · rw [hbeq] at e; simp only [Block.mk.injEq, and_true] at e; exact absurd ⟨e.2, e.1⟩ h2
+    · exact Or.inr (Or.inr hp)
+  · intro c hc hfree hlt
+    rw [inFreed_remove]
+    rcases (hmemNew c _).mp hc with hp | rfl | hp
+    · refine ⟨hw.freedComplete c ((hmemOld c).mpr (Or.inl hp)) hfree hlt, fun e => ?_⟩
+      have := tiles_mem hs.1 hp; omega
+    · simp at hfree
+    · refine ⟨hw.freedComplete c ((hmemOld c).mpr (Or.inr (Or.inr hp))) hfree hlt, fun e => ?_⟩
+      have := tiles_mem hs.2.2 hp; omega
+  · exact (noAdj_around_used rfl).mpr ⟨hna.1, hna.2.1⟩
+
+theorem split_less_inv {a : CBA} {pre post : List Block} {b : Block}
+    (h : Inv a (pre ++ b :: post)) (hb : b.used = false) {n : Nat} (hn : 0 < n ∧ n < b.size) :
+    ∃ a', a.split b n true
+        = .ok (a', ⟨b.start, n, true⟩, some ⟨b.start + n, b.size - n, false⟩) ∧
+      Inv a' (pre ++ ⟨b.start, n, true⟩ :: ⟨b.start + n, b.size - n, false⟩ :: post) ∧
+      SameFrame a' a := by
+  have hw := h.toWInv
+  have ha := hw.arrAt
+  obtain ⟨arr1, e1, e2⟩ := ha.splitCells n ⟨b.start, n, true⟩ ⟨b.start + n, b.size - n, false⟩ hn rfl rfl
+  have hs := tiles_split hw.tiles
+  have hna := (noAdj_around_free hb).mp h.noAdj
+  have hsp : b.split n = (some ⟨b.start, n, false⟩, some ⟨b.start + n, b.size - n, false⟩) := by
+    simp [Block.split, hn.2]
+  unfold CBA.split
+  rw [hsp]
+  simp only [CBA.setCell, e1, e2, bind, Except.bind, pure, Except.pure, if_true]
+  refine ⟨_, rfl, ?_, rfl, rfl, rfl⟩
+  have hmemOld : ∀ c, c ∈ pre ++ b :: post ↔ c ∈ pre ∨ c = b ∨ c ∈ post := by intro c; simp
+  have hmemNew : ∀ c t t', c ∈ pre ++ t :: t' :: post ↔ c ∈ pre ∨ c = t ∨ c = t' ∨ c ∈ post := by
+    intro c t t'; simp
+  have hbeq : b = ⟨b.start, b.size, false⟩ := by cases b; simp_all
+  have hpre : ∀ c ∈ pre, c.start < b.start := fun c hc => by have := tiles_mem hs.1 hc; omega
+  have hpost : ∀ c ∈ post, b.start + b.size ≤ c.start := fun c hc => (tiles_mem hs.2.2 hc).1
+  obtain ⟨l, hl, hlt⟩ := hw.top
+  rw [getLast?_append_cons] at hl
+  have htop : (post = [] ∧ b.start = a.top) ∨ (post ≠ [] ∧ b.start + b.size ≤ a.top) := by
+    cases post with
+    | nil => left; simp at hl; exact ⟨rfl, by rw [← hlt, hl]⟩
+    | cons q post' =>
+      right
+      refine ⟨by simp, ?_⟩
+      have : l ∈ q :: post' := by
+        simp only [List.getLast?_cons_cons] at hl
+        exact List.mem_of_getLast? hl
+      have := hpost l this; omega
+  generalize htop' : max a.top (b.start + n) = top' at *
+  have htv : (post = [] ∧ top' = b.start + n) ∨ (post ≠ [] ∧ top' = a.top) := by
+    rcases htop with ⟨h1, h2⟩ | ⟨h1, h2⟩
+    · left; exact ⟨h1, by omega⟩
+    · right; exact ⟨h1, by omega⟩
+  refine ⟨⟨hw.offLe, rfl, ?_, ?_, ?_, ?_⟩, ?_⟩
+  · refine tiles_join hs.1 hn.1 ?_
+    show _ = _ ∧ _ < _ ∧ Tiles _ _ _
+    refine ⟨rfl, by simp only []; omega, ?_⟩
+    have : b.start + n + (b.size - n) = b.start + b.size := by omega
+    rw [this]; exact hs.2.2
+  · rw [getLast?_append_cons]
+    rcases htv with ⟨rfl, ht⟩ | ⟨hne, ht⟩
+    · exact ⟨_, rfl, ht.symm⟩
+    · obtain ⟨q, post', rfl⟩ := List.exists_cons_of_ne_nil hne
+      simp only [List.getLast?_cons_cons] at hl ⊢
+      exact ⟨l, hl, by rw [ht]; exact hlt⟩
+  · intro sz st hin
+    rw [hmemNew]
+    have key : inFreed (removeFreed a.freed b) sz st →
+        (⟨st, sz, false⟩ : Block) ∈ pre ∨ (⟨st, sz, false⟩ : Block) ∈ post := by
+      intro hin
+      obtain ⟨h1, h2⟩ := (inFreed_remove _ _ _ _).mp hin
+      rcases (hmemOld _).mp (hw.freedSound sz st h1) with hp | e | hp
+      · exact Or.inl hp
+      · rw [hbeq] at e; simp only [Block.mk.injEq, and_true] at e; exact absurd ⟨e.2, e.1⟩ h2
+      · exact Or.inr hp
+    simp only at hin
+    split at hin
+    · rcases (inFreed_add _ _ _ _).mp hin with hin | ⟨rfl, rfl⟩
+      · rcases key hin with hp | hp
+        · exact Or.inl hp
+        · exact Or.inr (Or.inr (Or.inr hp))
+      · exact Or.inr (Or.inr (Or.inl rfl))
+    · rcases key hin with hp | hp
+      · exact Or.inl hp
+      · exact Or.inr (Or.inr (Or.inr hp))
+  · intro c hc hfree hlt'
+    simp only at hlt' ⊢
+    have keep : (c ∈ pre ∨ c ∈ post) → inFreed (removeFreed a.freed b) c.size c.start := by
+      intro hc'
+      rw [inFreed_remove]
+      have hco : c ∈ pre ++ b :: post := by
+        rw [hmemOld]; rcases hc' with hp | hp
+        · exact Or.inl hp
+        · exact Or.inr (Or.inr hp)
+      have hlt0 : c.start < a.top := by
+        rcases hc' with hp | hp
+        · have := hpre c hp
+          rcases htop with ⟨_, h2⟩ | ⟨_, h2⟩ <;> omega
+        · rcases htv with ⟨h1, _⟩ | ⟨_, h2⟩
+          · rw [h1] at hp; simp at hp
+          · omega
+      refine ⟨hw.freedComplete c hco hfree hlt0, fun e => ?_⟩
+      rcases hc' with hp | hp
+      · have := hpre c hp; omega
+      · have := hpost c hp; omega
+    rcases (hmemNew c _ _).mp hc with hp | rfl | rfl | hp
+    · split
+      · exact (inFreed_add _ _ _ _).mpr (Or.inl (keep (Or.inl hp)))
+      · exact keep (Or.inl hp)
+    · simp at hfree
+    · rw [if_pos (by simpa using hlt')]
+      exact (inFreed_add _ _ _ _).mpr (Or.inr ⟨rfl, rfl⟩)
+    · split
+      · exact (inFreed_add _ _ _ _).mpr (Or.inl (keep (Or.inr hp)))
+      · exact keep (Or.inr hp)
+  · refine (noAdj_around_used rfl).mpr ⟨hna.1, ?_⟩
+    exact (noAdj_around_free (pre := []) (c := ⟨b.start + n, b.size - n, false⟩) rfl).mpr
+      ⟨trivial, hna.2.1, by intro p hp; simp at hp, hna.2.2.2⟩
+
+/-- the block list after `alloc(n)` took `n` cells from the front of the free block `b` -/
+def afterAlloc (pre post : List Block) (b : Block) (n : Nat) : List Block :=
+  pre ++ ⟨b.start, n, true⟩ ::
+    ((if n < b.size then [(⟨b.start + n, b.size - n, false⟩ : Block)] else []) ++ post)
+
+theorem alloc_inv {a : CBA} {bs : List Block} (h : Inv a bs) {n : Nat} (hn : 0 < n) (k : Nat) :
+    (∃ a' pre b post, a.alloc n k = .ok (a', some b.start) ∧ bs = pre ++ b :: post ∧
+        b.used = false ∧ n ≤ b.size ∧ Inv a' (afterAlloc pre post b n) ∧ SameFrame a' a) ∨
+    (a.alloc n k = .ok (a, none) ∧ ∀ b ∈ bs, b.used = false → b.size < n) := by
+  unfold CBA.alloc
+  rcases findAvailable_spec h.toWInv n k with ⟨b, e, hb, hf, hle⟩ | ⟨e, hsmall⟩
+  · left
+    obtain ⟨pre, post, rfl⟩ := List.append_of_mem hb
+    rw [e]
+    simp only [bind, Except.bind, CBA.reserveAt, Nat.lt_irrefl, if_false, pure, Except.pure]
+    by_cases hlt : n < b.size
+    · obtain ⟨a', e2, hi, hfr⟩ := split_less_inv h hf ⟨hn, hlt⟩
+      rw [e2]
+      refine ⟨a', pre, b, post, rfl, rfl, hf, hle, ?_, hfr⟩
+      simpa [afterAlloc, hlt] using hi
+    · have heq : n = b.size := by omega
+      subst heq
+      obtain ⟨a', e2, hi, hfr⟩ := split_exact_inv h hf
+      rw [e2]
+      refine ⟨a', pre, b, post, rfl, rfl, hf, hle, ?_, hfr⟩
+      simpa [afterAlloc] using hi
+  · right
+    rw [e]
+    exact ⟨rfl, hsmall⟩
+
+theorem set_mid {α} (P R : List α) (c v : α) : (P ++ c :: R).set P.length v = P ++ v :: R := by
+  induction P with
+  | nil => rfl
+  | cons x xs ih => simp [ih]
+
+theorem inv_init {size pos off : Nat} {a : CBA} (h : CBA.init size pos off = some a) :
+    Inv a [⟨pos + off, size - pos, false⟩] ∧ a.off = off ∧ a.size = size ∧ a.pos = pos + off := by
+  unfold CBA.init at h
+  split at h
+  · rename_i hp
+    simp only [Option.some.injEq] at h
+    subst h
+    refine ⟨⟨⟨by simp, ?_, ?_, ⟨_, rfl, rfl⟩, ?_, ?_⟩, trivial⟩, rfl, rfl, rfl⟩
+    · simp only [render, Nat.add_sub_cancel, List.flatMap_cons, List.flatMap_nil, List.append_nil, seg]
+      have e : List.replicate size (none : Option Block)
+          = List.replicate pos none ++ none :: List.replicate (size - pos - 1) none := by
+        rw [replicate_glue]; congr 1; omega
+      rw [e]
+      have := set_mid (List.replicate pos (none : Option Block)) (List.replicate (size - pos - 1) none) none
+        (some ⟨pos + off, size - pos, false⟩)
+      simp only [List.length_replicate] at this
+      rw [this]
+    · show _ = _ ∧ _ < _ ∧ _ = _
+      exact ⟨rfl, by simp only []; omega, by simp only []; omega⟩
+    · intro sz st hin
+      obtain ⟨l, hl, _⟩ := hin
+      simp at hl
+    · intro b hb hf hlt
+      simp at hb; subst hb
+      simp at hlt
+  · simp at h
 
 
 end Sc3Verif.C16
